@@ -11,12 +11,13 @@
        of the type the meta-schema requires - except the recorded finding; every $ref resolves to a
        shipped definition; every $id is the file's path; every pattern is in the modelled subset;
        the translated schemas carry exactly the raw files' patterns and references;
-   (d) the schema's key / code / tax-identity-code rules are literally the rules of the Go code.
+   (d) the schema's key / code rules are literally the rules of the Go code (cbc.KeyPattern,
+       cbc.CodePattern and the length limits), and the key pattern means what its documentation says.
    What is NOT proved: that every document the library accepts conforms (that would need a model of
    every Validate method); tools/props/c11.py establishes it by sweep. *)
 From Coq Require Import List ZArith Strings.Byte String Bool.
 From Verif Require Import Base.Wire Schema.Regex Schema.RegexProofs Schema.Schema Schema.Validate
-  Schema.ValidateProofs Schema.WellFormed Schema.WellFormedProofs Schema.ShippedProofs.
+  Schema.ValidateProofs Schema.WellFormed Schema.WellFormedProofs Schema.ShippedProofs Schema.LeafProofs.
 From Verif Require Import Gen.Schemas Gen.SchemasJson.
 Import ListNotations.
 Open Scope Z_scope.
@@ -81,30 +82,30 @@ Definition known_malformed : list (bytes * bytes) := [ (bs "bill/delivery.json",
 
 Theorem all_schemas_wellformed_except_known :
   files_wellformed_except known_malformed shipped_schema_json.
-Proof. exact (wf_files_except_sound known_malformed shipped_schema_json eq_refl (eq_refl : wf_files_except known_malformed shipped_schema_json = true)). Qed.
+Proof. exact (wf_files_except_sound known_malformed shipped_schema_json eq_refl (@eq_refl bool true <: wf_files_except known_malformed shipped_schema_json = true)). Qed.
 Print Assumptions all_schemas_wellformed_except_known.
 
 (* each recorded exception is a real defect: the named file is NOT a well-formed schema
    (for the committed list: delivery_enum_malformed_refuted) *)
 Theorem known_malformed_each_refuted : exceptions_are_real known_malformed shipped_schema_json.
-Proof. exact (known_are_real_sound known_malformed shipped_schema_json (eq_refl : known_are_real known_malformed shipped_schema_json = true)). Qed.
+Proof. exact (known_are_real_sound known_malformed shipped_schema_json (@eq_refl bool true <: known_are_real known_malformed shipped_schema_json = true)). Qed.
 Print Assumptions known_malformed_each_refuted.
 
 Theorem all_refs_resolve : refs_resolve shipped_schemas.
-Proof. exact (refs_resolve_in_sound shipped_schemas (eq_refl : refs_resolve_in shipped_schemas = true)). Qed.
+Proof. exact (refs_resolve_in_sound shipped_schemas (@eq_refl bool true <: refs_resolve_in shipped_schemas = true)). Qed.
 Print Assumptions all_refs_resolve.
 
 Theorem all_ids_are_the_file_paths : ids_match_paths shipped_schemas.
-Proof. exact (ids_match_paths_sound shipped_schemas (eq_refl : forallb id_matches_path shipped_schemas = true)). Qed.
+Proof. exact (ids_match_paths_sound shipped_schemas (@eq_refl bool true <: forallb id_matches_path shipped_schemas = true)). Qed.
 Print Assumptions all_ids_are_the_file_paths.
 
 Theorem all_patterns_in_supported_subset : patterns_supported shipped_schemas.
-Proof. exact (patterns_supported_sound shipped_schemas (eq_refl : patterns_supported_b shipped_schemas = true)). Qed.
+Proof. exact (patterns_supported_sound shipped_schemas (@eq_refl bool true <: patterns_supported_b shipped_schemas = true)). Qed.
 Print Assumptions all_patterns_in_supported_subset.
 
 (* the translator lost no pattern and no reference *)
 Theorem translated_schemas_agree_with_raw_files : translation_agrees shipped_schema_json shipped_schemas.
-Proof. exact (translation_faithful_sound shipped_schema_json shipped_schemas (eq_refl : translation_faithful shipped_schema_json shipped_schemas = true)). Qed.
+Proof. exact (translation_faithful_sound shipped_schema_json shipped_schemas (@eq_refl bool true <: translation_faithful shipped_schema_json shipped_schemas = true)). Qed.
 Print Assumptions translated_schemas_agree_with_raw_files.
 
 (* ---- (d) leaf rules: the schema says what the Go code checks ---- *)
@@ -123,6 +124,14 @@ Theorem code_rule_is_the_implementations :
   go_code_min_length = 1 /\ go_code_max_length = 32.
 Proof. exact (conj eq_refl (conj eq_refl (conj eq_refl eq_refl))). Qed.
 Print Assumptions code_rule_is_the_implementations.
+
+(* the published key pattern accepts exactly: one lower-case letter, or lower-case alphanumerics
+   with inner '-' / '+' starting and ending alphanumeric (LeafProofs.key_spec) *)
+Theorem published_key_pattern_accepts_exactly_keys s :
+  exists p, def_pattern shipped_schemas (bs "cbc/key.json") (bs "Key") = Some p /\
+            (pattern_matches p s = true <-> key_spec s).
+Proof. exact (ex_intro _ _ (conj eq_refl (key_pattern_meaning go_key_pattern s))). Qed.
+Print Assumptions published_key_pattern_accepts_exactly_keys.
 
 (* ---- non-vacuity ---- *)
 Example regex_examples :
